@@ -2,7 +2,7 @@
 
 1. TLC (specs/SymTabs.tla) enumerates every option configuration (output kind exe/pie/shared x
    export option none/--export-dynamic/--export-dynamic-symbol/--export-dynamic-symbol-list/
-   --dynamic-list x --exclude-libs none/ALL/<archive> x version script none/local list/`local: *`
+   --dynamic-list x --exclude-libs none/ALL/<archives by name> x version script none/local list/`local: *`
    x strip option) over a fixed program that contains a definition for every combination of
    (file kind, binding, visibility, listed-for-export, version-script-local, referenced by a shared
    library).  It checks the transcription of wild's export logic against the declarative rule
@@ -32,7 +32,7 @@ META = {
     "ready": True,
     "level": "model_checking",
     "technique": "TLA+ spec of the export rule (.dynsym membership, allowed .symtab forms) and of wild's export logic, all option configurations enumerated by TLC over a symbol universe covering every binding x visibility x file kind x listing combination; every configuration replayed into the real wild and GNU ld and both symbol tables compared; structural observer on all outputs",
-    "level_text": "TLC enumerates all 153 option configurations (output kind x export option x --exclude-libs x version script x strip) over a universe of 112 definitions (3 file kinds x GLOBAL/WEAK x 4 visibilities x export-listed x version-script-local x referenced-by-DSO) and checks the transcription of wild's export logic against the declarative rule symbol by symbol; every configuration is linked with the real wild and with GNU ld 2.40 (the rule must equal GNU ld), .dynsym membership and attributes, .symtab once-ness, value (identity bytes), size, type, binding and visibility are compared, and the structural invariants (locals first, sh_info, no duplicate globals, values inside sections, null entry) are checked on every output.",
+    "level_text": "TLC enumerates all 153 option configurations (output kind x export option x --exclude-libs x version script x strip) over a universe of 144 definitions (4 file kinds: two objects, a regular-archive member, a thin-archive member x GLOBAL/WEAK x 4 visibilities x export-listed x version-script-local x referenced-by-DSO) and checks the transcription of wild's export logic against the declarative rule symbol by symbol; every configuration is linked with the real wild and with GNU ld 2.40 (the rule must equal GNU ld), .dynsym membership and attributes, .symtab once-ness, value (identity bytes), size, type, binding and visibility are compared, and the structural invariants (locals first, sh_info, no duplicate globals, values inside sections, null entry) are checked on every output.",
     "level_note": "x86-64 only; garbage collection is switched off (--no-gc-sections) so that every definition is retained; TLS, IFUNC and copy-relocated symbols are not in the universe; linker-defined symbols are not compared.",
     "engine": "tlc",
 }
@@ -76,20 +76,22 @@ def model_check(ctx, cov):
 
 
 def build_program(d, universe):
-    by_file = {"m": [], "s": [], "a": []}
+    by_file = {"m": [], "s": [], "a": [], "t": []}
     for x in universe:
         by_file[x["file"]].append(x)
     pull = next(sname(x) for x in by_file["a"] if x["bind"] == "GLOBAL" and x["vis"] == "DEFAULT" and x["e"] == 0 and x["v"] == 0)
+    pull_t = next(sname(x) for x in by_file["t"] if x["bind"] == "GLOBAL" and x["vis"] == "DEFAULT" and x["e"] == 0 and x["v"] == 0)
     texts = {}
     main = [".text", ".globl _start", ".type _start,@function", "_start:",
-            f"    call {pull}@PLT", "    call imp_f@PLT", "    .weak imp_w", "    call imp_w@PLT",
+            f"    call {pull}@PLT", f"    call {pull_t}@PLT", "    call imp_f@PLT", "    .weak imp_w", "    call imp_w@PLT",
             "    mov imp_d@GOTPCREL(%rip), %rax",
             "    mov dup_cc@GOTPCREL(%rip), %rax",       # unreferenced common symbols are not retained by wild
             "    ret", ".size _start,.-_start"]
     texts["m"] = "\n".join(main) + "\n"
     texts["s"] = ""
     texts["a"] = ""
-    for f in "msa":
+    texts["t"] = ""
+    for f in "msat":
         for x in sorted(by_file[f], key=sname):
             texts[f] += symgen.define(sname(x), f, x["bind"], x["vis"], stype(x))
         texts[f] += symgen.define(f"{f}_local", f, "LOCAL", "DEFAULT", "FUNC")
@@ -98,10 +100,12 @@ def build_program(d, universe):
         symgen.define("dup_ww", "m", "WEAK") + ".comm dup_cc,8,8\n"
     texts["s"] += symgen.define("dup_ws", "s", "GLOBAL") + symgen.define("dup_sw", "s", "WEAK") + \
         symgen.define("dup_ww", "s", "WEAK") + ".comm dup_cc,16,8\n"
-    objs = {f: symgen.cached_obj(d, texts[f], stem={"m": "main", "s": "sec", "a": "arc"}[f]) for f in "msa"}
+    objs = {f: symgen.cached_obj(d, texts[f], stem={"m": "main", "s": "sec", "a": "arc", "t": "thin"}[f]) for f in "msat"}
     arc = d / "libarc.a"
+    thin = d / "libthin.a"
     from vlib import asm
     asm.archive(arc, [objs["a"]])
+    asm.archive(thin, [objs["t"]], thin=True)
     # helper library: defines the imports, references every r = 1 symbol
     lib = "".join(symgen.define(n, "libimp", "GLOBAL", "DEFAULT", t) for n, t in
                   (("imp_f", "FUNC"), ("imp_w", "FUNC"), ("imp_u", "FUNC"), ("imp_d", "OBJECT")))
@@ -114,13 +118,13 @@ def build_program(d, universe):
     (d / "export.list").write_text("{\n" + "".join(f"  {n};\n" for n in e_names) + "};\n")
     (d / "vs_locals.map").write_text("{ local:\n" + "".join(f"  {n};\n" for n in v1) + "};\n")
     (d / "vs_globstar.map").write_text("{ global:\n" + "".join(f"  {n};\n" for n in v0) + " local: *; };\n")
-    return dict(objs=objs, arc=arc, so=so, names=names, e_names=e_names, texts=texts, dir=d)
+    return dict(objs=objs, arc=arc, thin=thin, so=so, names=names, e_names=e_names, texts=texts, dir=d)
 
 
 def link_args(cfg, prog):
     d = prog["dir"]
     a = list(KIND_ARGS[cfg["kind"]]) + ["--no-gc-sections"]
-    a += [prog["objs"]["m"], prog["objs"]["s"], prog["arc"], prog["so"]]
+    a += [prog["objs"]["m"], prog["objs"]["s"], prog["arc"], prog["thin"], prog["so"]]
     if cfg["exp"] == "all":
         a.append("--export-dynamic")
     elif cfg["exp"] == "sym":
@@ -132,7 +136,7 @@ def link_args(cfg, prog):
     if cfg["excl"] == "ALL":
         a += ["--exclude-libs", "ALL"]
     elif cfg["excl"] == "byname":
-        a += ["--exclude-libs", "libarc.a"]
+        a += ["--exclude-libs", "libarc.a:libthin.a"]
     if cfg["vs"] == "locals":
         a.append(f"--version-script={d / 'vs_locals.map'}")
     elif cfg["vs"] == "globstar":
@@ -338,7 +342,8 @@ def run(ctx):
                 if s is not None and key in ("dynsym:unexpected-export", "dynsym:missing-export"):
                     # the model's classification of this symbol in this configuration
                     predicted = s["wild_op"] != s["exported"]
-                    if predicted and s["dev"] in ("internal-visibility-exported", "exclude-libs-ignored-by-export-request"):
+                    if predicted and s["dev"] in ("internal-visibility-exported", "exclude-libs-ignored-by-export-request",
+                                                 "exclude-libs-by-name-misses-thin-archive"):
                         full = f"dynsym:{s['dev']}"
                         stats["known"][s["dev"]] = stats["known"].get(s["dev"], 0) + 1
                 if (full, name) in seen_keys:
